@@ -364,12 +364,15 @@ def run(rep: Report, prog: Program, tier: str) -> None:
         elif kind == "late copy of the newest packet":
             base = [(seq0 + i, 160 * i, 0.02 * i) for i in range(24)]
             pk = base[:11] + [(seq0 + 10, 1600, 0.213)] + base[11:20] + [(seq0 + 19, 3040, 0.391), (seq0 + 19, 3040, 0.395)] + base[20:]
+        elif kind == "timestamps in decoding order (not monotonic)":
+            order_ = [0, 3, 1, 2, 6, 4, 5, 9, 7, 8, 12, 10, 11]
+            pk = [(seq0 + i, 3000 * t_, 0.033 * i + (0.004 if i % 4 == 1 else 0.0)) for i, t_ in enumerate(order_)]
         elif kind == "two sequence wraps in large strides":
             pk = [(seq0 + 30000 * i, 160 * i, 0.02 * i) for i in range(7)]
         elif kind == "several frames per timestamp":
             pk = [(seq0 + i, 3000 * (i // 3), 0.011 * i) for i in range(30)]
         return [(s % 65536, (t + ts0) % (1 << 32), n) for s, t, n in pk]
-    for kind, seq0 in itertools.product(("in order, steady", "in order, jittered arrival", "losses", "duplicates and late copies", "late copy of the newest packet", "two sequence wraps in large strides", "several frames per timestamp"), (7, 65500)):
+    for kind, seq0 in itertools.product(("in order, steady", "in order, jittered arrival", "losses", "duplicates and late copies", "late copy of the newest packet", "two sequence wraps in large strides", "timestamps in decoding order (not monotonic)", "several frames per timestamp"), (7, 65500)):
         arr = make_seq(kind, seq0, 0 if seq0 == 7 else (1 << 32) - 1000)
         # the reference works on unwrapped numbers
         unwrapped = []
@@ -409,3 +412,54 @@ def run(rep: Report, prog: Program, tier: str) -> None:
             names = ("packets received", "extended highest sequence", "packets expected", "cumulative lost", "jitter")
             diff_ = [f"{names[k]} {got[bad][k]} (reference {want2[bad][k]})" for k in range(5) if got[bad][k] != want2[bad][k]]
             rep.fail(mk_finding(prog, PROP, "C18-REF", sadd, sadd.node, f"[{label}] after packet #{bad}: " + ", ".join(diff_), construct="statistics: " + names[[k for k in range(5) if got[bad][k] != want2[bad][k]][0]]))
+
+    # ---- C18-WIRE: the statistics of a stream count what arrived on that stream's SSRC - a retransmission arriving on the RTX SSRC is counted there, under its own
+    # sequence number, and never credited to the media stream (that would make every repaired loss disappear from the loss figures)
+    rep.rule("C18-WIRE", "statistics are fed with the packet as it arrived (before the RTX unwrap), keyed by the wire SSRC", min_instances=2)
+    from .objhook import make_hook as _mkw
+    hrp = prog.func("rtcrtpreceiver.RTCRtpReceiver._handle_rtp_packet")
+
+    def _wx(call, evl):
+        nm = unparse(call.func)
+        if nm.endswith("__jitter_buffer.add"):
+            return (False, None)
+        if nm.endswith("__log_debug") or nm.endswith("_send_rtcp_pli") or nm.endswith("_send_rtcp_nack"):
+            return None
+        if nm == "depayload":
+            return evl.ev(call.args[1])
+        if nm in ("clock.current_datetime", "current_datetime"):
+            return 0
+        if nm == "time.time":
+            return 50.0
+        if nm == "isinstance" and len(call.args) == 2 and unparse(call.args[1]) in ("int", "str", "bytes"):
+            return isinstance(evl.ev(call.args[0]), {"int": int, "str": str, "bytes": bytes}[unparse(call.args[1])])
+        return NotImplemented
+    wh = _mkw(prog, _wx)
+    wev = _Ev2(prog, hrp.module, None, {}, wh)
+    me = _NS2(__cls__=hrp.cls, _enabled=True)
+    for k_, v_ in {"__remote_bitrate_estimator": None, "__rtcp_ssrc": 7, "__active_ssrc": {}, "__remote_streams": {}, "__rtx_ssrc": {2000: 1000}, "__decoder_thread": None,
+                   "__jitter_buffer": _NS2(), "__kind": "video", "__nack_generator": None,
+                   "__codecs": {96: _NS2(name="VP8", mimeType="video/VP8", clockRate=90000, parameters={}), 97: _NS2(name="rtx", mimeType="video/rtx", clockRate=90000, parameters={"apt": 96})}}.items():
+        setattr(me, k_, v_)
+
+    def _wp(pt, ssrc, seq, payload):
+        return wh.instantiate(prog.cls("rtp.RtpPacket"), [], dict(payload_type=pt, sequence_number=seq, timestamp=9000, ssrc=ssrc, payload=payload), wev)
+    try:
+        wh.run_method(hrp, me, [_wp(96, 1000, 500, b"a"), 1], {})
+        wh.run_method(hrp, me, [_wp(96, 1000, 502, b"c"), 2], {})                  # 501 is lost ...
+        wh.run_method(hrp, me, [_wp(97, 2000, 7001, b"\\x01\\xf5b"), 3], {})         # ... and repaired over RTX (original sequence number 501)
+    except (_R2, _U2) as ex_:
+        raise AnalysisError(f"C18-WIRE cannot evaluate _handle_rtp_packet: {ex_}")
+    streams = getattr(me, "__remote_streams")
+    media, rtx = streams.get(1000), streams.get(2000)
+    if media is not None and media.packets_received == 2 and media.max_seq == 502:
+        rep.ok("C18-WIRE", "media SSRC: 2 packets received, highest sequence 502 (the repaired loss still counts as lost)")
+    else:
+        rep.fail(mk_finding(prog, PROP, "C18-WIRE", hrp, hrp.node, f"after packets 500, 502 on the media SSRC and a retransmission of 501 on the RTX SSRC the media stream's statistics show "
+                            f"{getattr(media, 'packets_received', None)} packets received (highest {getattr(media, 'max_seq', None)}); expected 2 (502): retransmissions are credited to the media stream, "
+                            "repaired losses vanish from cumulative loss and fraction lost", construct="statistics fed after the RTX unwrap"))
+    if rtx is not None and rtx.packets_received == 1 and rtx.max_seq == 7001:
+        rep.ok("C18-WIRE", "RTX SSRC: its own report block, wire sequence number 7001")
+    else:
+        rep.fail(mk_finding(prog, PROP, "C18-WIRE", hrp, hrp.node, f"the RTX SSRC has statistics {None if rtx is None else (rtx.packets_received, rtx.max_seq)}; expected 1 packet with sequence number 7001: its report "
+                            "block is missing from the receiver report", construct="no statistics for the RTX SSRC"))
